@@ -344,6 +344,8 @@ class Gen:
     def mk_smul(self, c, a, left=True):
         pre = "" if a.kind == "V" else "m"
         cpp = f"({cnum(c)}*{a.cpp})" if left else f"({a.cpp}*{cnum(c)})"
+        if not isinstance(c, int) and c[0] == 1 and not left:
+            cpp = f"({a.cpp}/{c[1]}.0)"          # B/t
         return self.node(a.kind, a.shape, pre + "smul", f"({pre}smul {tnum(c)} {a.txt})", cpp,
                          f"o_{pre}smul({cnum(c)},{a.orc})", a.bound * self.cbound(c), a.dexp + self.cdexp(c), [a])
 
@@ -368,6 +370,36 @@ class Gen:
             oc = f"o_cmat({a.shape[0]},{a.shape[1]},{cnum(c)})"
         return self.node(a.kind, a.shape, op, f"({pre}add {a.txt} {cv})", f"({a.cpp}+{cnum(c)})", f"o_{pre}add({a.orc},{oc})",
                          (a.bound << max(0, self.cdexp(c) - a.dexp)) + (self.cbound(c) << a.dexp), max(a.dexp, self.cdexp(c)), [a])
+
+    def mk_binc(self, f, a, c, scalar_first=False):
+        """min(A,t) / max(t,A): binary functor with a constant operand"""
+        pre = "" if a.kind == "V" else "m"
+        if a.kind == "V":
+            cv, oc = f"(cvec {a.shape} {tnum(c)})", f"o_cvec({a.shape},{cnum(c)})"
+            ccls = self.K("cvec")
+        else:
+            cv, oc = f"(cmat {a.shape[0]} {a.shape[1]} {tnum(c)})", f"o_cmat({a.shape[0]},{a.shape[1]},{cnum(c)})"
+            ccls = self.K("cmat")
+        bd = max(a.bound << max(0, self.cdexp(c) - a.dexp), self.cbound(c) << a.dexp)
+        dx = max(a.dexp, self.cdexp(c))
+        if scalar_first:
+            txt, cpp, orc = f"({pre}bin {f} {cv} {a.txt})", f"{f}({cnum(c)},{a.cpp})", f"o_{pre}bin(f_{f},{oc},{a.orc})"
+        else:
+            txt, cpp, orc = f"({pre}bin {f} {a.txt} {cv})", f"{f}({a.cpp},{cnum(c)})", f"o_{pre}bin(f_{f},{a.orc},{oc})"
+        reads = set(a.reads)
+        cls = self.K("bin" if a.kind == "V" else "mbin", *( [ccls, a.cls] if scalar_first else [a.cls, ccls]))
+        return E(a.kind, a.shape, txt, cpp, orc, bd, dx, reads, cls, False, None, a.elementwise, a.depth + 1, a.ops + (f + "c",))
+
+    def mk_foldrows(self, which, m):
+        """max(as_rows(M)) / min(as_columns(M)) (rows/columns must not be empty)"""
+        if which == "maxrows":
+            n, k, cpp, orc, cls = m.shape[0], m.shape[1], f"max(as_rows({m.cpp}))", f"o_maxrows({m.orc})", self.K("sumrows", m.cls)
+        else:
+            n, k, cpp, orc, cls = m.shape[1], m.shape[0], f"min(as_columns({m.cpp}))", f"o_mincols({m.orc})", self.K("sumcols", m.cls)
+        if k == 0:
+            raise Unsupported("max/min of empty rows is undefined")
+        return E("V", n, f"({which} {m.txt})", cpp, orc, m.bound, m.dexp, m.reads, cls, False, None, False, m.depth + 1,
+                 m.ops + (which,))
 
     def mk_concat(self, a, b):
         bd, dx = self._maxb(a, b)
@@ -487,8 +519,10 @@ class Gen:
             if b is None:
                 return None
             return self.bin("V", "div", a, b)
-        if x < 58:
+        if x < 56:
             return self.mk_addc(self.gen_v(n, d), self.const())
+        if x < 59:
+            return self.mk_binc(r.choice(["min", "max"]), self.gen_v(n, d), self.const(), r.chance(1, 2))
         if x < 66:
             n1 = r.range(0, n)
             return self.mk_concat(self.gen_v(n1, d), self.gen_v(n - n1, d))
@@ -500,9 +534,14 @@ class Gen:
             m = self.gen_m(k, n, d)
             return self.mk_vm(self.gen_v(k, d), m)
         k = self.dim()
-        if x < 95:
+        if x < 94:
             return self.mk_sumrows(self.gen_m(n, k, d))
-        return self.mk_sumcols(self.gen_m(k, n, d))
+        if x < 97:
+            return self.mk_sumcols(self.gen_m(k, n, d))
+        k = max(k, 1)
+        if x < 99:
+            return self.mk_foldrows("maxrows", self.gen_m(n, k, d))
+        return self.mk_foldrows("mincols", self.gen_m(k, n, d))
 
     def un(self, kind, f, a):
         pre = "" if kind == "V" else "m"
@@ -596,6 +635,8 @@ class Gen:
         if x < 92:
             k = r.range(0, n1)
             return self.mk_concatb(self.gen_m(k, n2, d), self.gen_m(n1 - k, n2, d))
+        if r.chance(1, 2):
+            return self.mk_binc(r.choice(["min", "max"]), self.gen_m(n1, n2, d), self.const(), r.chance(1, 2))
         return self.mk_addc(self.gen_m(n1, n2, d), self.const())
 
     # ------------------------------------------------------------------ statements
@@ -675,6 +716,8 @@ class Gen:
                 return self.sparse_reduction(k) if r.chance(1, 4) else self.sparse_statement(k)
             except Unsupported:
                 return None
+        if r.chance(1, 12):
+            return self.scalar_statement(k)
         t = self.target()
         base = [v for v in self.vars if v.name in t.reads][0]
         form = r.choice(self.FORMS + ["set", "plus"])
@@ -717,18 +760,36 @@ class Gen:
         fname = ("na_" if noalias else "") + form
         return self.render_statement(k, fname, t, e)
 
-    def render_statement(self, k, fname, t, e):
+    def scalar_statement(self, k):
+        """x *= t / x /= t with a scalar t (kernels::assign<multiply|divide>(x, t), no temporary)"""
+        r = self.r
+        t = self.target()
+        base = [v for v in self.vars if v.name in t.reads][0]
+        form = r.choice(["times", "divide"])
+        c = r.choice([2, -1, 3, 4, -2]) if form == "times" else r.choice([2, 4, -2, 1])
+        if form == "times":
+            nb, nd = base.bound * abs(c), base.dexp
+        else:
+            nb, nd = base.bound, base.dexp + abs(c).bit_length() - 1
+        if max(1, nb).bit_length() + nd > MAXBITS:
+            return None
+        base.bound, base.dexp = nb, nd
+        e = self.mk_cvec(t.shape, c) if t.kind == "V" else self.mk_cmat(t.shape[0], t.shape[1], c)
+        return self.render_statement(k, form, t, e, scalar=c)
+
+    def render_statement(self, k, fname, t, e, scalar=None):
         noalias = fname.startswith("na_")
         form = fname[3:] if noalias else fname
         base = [v for v in self.vars if v.name in t.reads][0]
         text = f"{fname} {t.txt} {e.txt}"
         tcpp = f"noalias({t.cpp})" if noalias else t.cpp
-        src = (f"// {text}\n"
-               f"static void run_{k}(c01::Store& S){{ using namespace remora; {tcpp} {self.CPPOP[form]} {e.cpp}; }}\n"
+        ecpp = e.cpp if scalar is None else cnum(scalar)
+        src = (f"// {text}" + ("   [scalar form]" if scalar is not None else "") + "\n"
+               f"static void run_{k}(c01::Store& S){{ using namespace remora; {tcpp} {self.CPPOP[form]} {ecpp}; }}\n"
                f"static void exp_{k}(c01::Store const& S, c01::Store& X){{ using namespace c01; o_assign({form.upper()}, {t.porc}, {e.orc}); }}\n"
                f"static c01::Reg reg_{k}({k}, c01::Entry{{\"{text}\", &run_{k}, &exp_{k}, 0, 0}});\n")
-        info = dict(form=fname, target_kind=t.kind, target_ops=t.ops, aliased=(base.name in e.reads), depth=e.depth,
-                    ops=e.ops, shape=t.shape)
+        info = dict(form=fname + ("_scalar" if scalar is not None else ""), target_kind=t.kind, target_ops=t.ops,
+                    aliased=(base.name in e.reads), depth=e.depth, ops=e.ops, shape=t.shape)
         return f"stmt {k} {text}", src, info
 
     REDS_V = ["sum", "max", "min", "norm_1", "norm_sqr", "norm_inf", "inner_prod"]
@@ -919,6 +980,7 @@ class CorpusGen(Gen):
         if h == "vm": return self.mk_vm(B(a[0]), B(a[1]))
         if h == "sumrows": return self.mk_sumrows(B(a[0]))
         if h == "sumcols": return self.mk_sumcols(B(a[0]))
+        if h in ("maxrows", "mincols"): return self.mk_foldrows(h, B(a[0]))
         if h == "outer": return self.mk_outer(B(a[0]), B(a[1]))
         if h == "mm": return self.mk_mm(B(a[0]), B(a[1]))
         if h == "repeat": return self.mk_repeat(B(a[0]), int(a[1]))
